@@ -20,6 +20,11 @@
 //! with a size / alignment other than the recorded one.  An invalid `dealloc` is NOT forwarded to
 //! `System`, so the process survives and the monitor can report.
 //!
+//! Use after free / use after a moving `realloc` is made visible: every block is filled with `0xDD`
+//! right before it goes back to `System`, and a `realloc` to a SMALLER size of a live, correctly
+//! described block always moves (new block, copy, old block poisoned and freed) — legal for any
+//! `GlobalAlloc`, whereas malloc trims in place and would let a stale pointer read on by luck.
+//!
 //! Scopes do not nest and are opened and closed by one coordinating thread while no other
 //! tracked thread runs.
 
@@ -362,6 +367,20 @@ fn release(addr: usize, layout: Layout, call: usize) -> Result<(usize, bool), ()
     }
 }
 
+/// The byte freed memory is filled with
+pub const POISON: u8 = 0xDD;
+/// At most this many bytes at the head of a freed block are filled (a huge, mostly untouched block
+/// would otherwise be paged in just to be thrown away)
+const POISON_MAX: usize = 1 << 26;
+
+/// Fills a block that is about to be freed (it was live and exactly described by the caller)
+#[inline(always)]
+unsafe fn poison(ptr: *mut u8, size: usize) {
+    if !OVERFLOW.load(Ordering::Relaxed) {
+        std::ptr::write_bytes(ptr, POISON, size.min(POISON_MAX));
+    }
+}
+
 unsafe impl GlobalAlloc for TrackingAlloc {
     #[inline]
     unsafe fn alloc(&self, layout: Layout) -> *mut u8 {
@@ -386,7 +405,12 @@ unsafe impl GlobalAlloc for TrackingAlloc {
         match release(ptr as usize, layout, 0) {
             // `System` (malloc / free) does not look at the size; an alignment slip could send
             // the block to the wrong deallocation path, so only exact frees are forwarded
-            Ok((_, true)) => System.dealloc(ptr, layout),
+            Ok((_, true)) => {
+                // whoever still reads the block after this point reads 0xDD (or whatever the
+                // next owner writes), never the old content by luck
+                poison(ptr, layout.size());
+                System.dealloc(ptr, layout)
+            }
             // a block freed with the wrong layout stays allocated (it is out of the table: the
             // program is done with it, and it is reported as a violation, not also as a leak)
             Ok((_, false)) => {}
@@ -426,10 +450,42 @@ unsafe impl GlobalAlloc for TrackingAlloc {
         // released the old address another thread can be handed that address, and it must not
         // find this entry there.  (While the call runs the block is in nobody's table entry;
         // nobody but the caller may refer to it anyway.)
-        slot.key.store(TOMB, Ordering::Release);
-        let p = System.realloc(ptr, layout, new_size);
         let gen = meta >> 8;
         let counted = gen != 0 && gen == CUR_GEN.load(Ordering::Relaxed);
+        if new_size < size {
+            // A SHRINKING realloc always moves (any `GlobalAlloc` may; malloc never does): whoever
+            // kept a pointer into the old block across the call is found out, because the old
+            // block is filled with 0xDD and freed.
+            let fresh = System.alloc(Layout::from_size_align_unchecked(new_size, layout.align()));
+            if fresh.is_null() {
+                // the old block is still the caller's, unchanged and still in the table
+                return fresh;
+            }
+            std::ptr::copy_nonoverlapping(ptr, fresh, new_size);
+            slot.key.store(TOMB, Ordering::Release);
+            note_freed(addr, size);
+            poison(ptr, size);
+            System.dealloc(ptr, layout);
+            // the shrunk block keeps the tag of the block it was made from
+            match insert(fresh as usize, new_size, meta) {
+                Some(new_slot) => {
+                    if counted {
+                        let j = JOURNAL_LEN.fetch_add(1, Ordering::Relaxed);
+                        if j < JOURNAL_SLOTS {
+                            JOURNAL[j].store(new_slot, Ordering::Relaxed);
+                        }
+                    }
+                }
+                None => OVERFLOW.store(true, Ordering::SeqCst),
+            }
+            if counted {
+                SCOPE_BYTES.fetch_add(new_size, Ordering::Relaxed);
+                SCOPE_BYTES.fetch_sub(size, Ordering::Relaxed);
+            }
+            return fresh;
+        }
+        slot.key.store(TOMB, Ordering::Release);
+        let p = System.realloc(ptr, layout, new_size);
         // on failure the old block is still the caller's
         let (now_addr, now_size) = if p.is_null() { (addr, size) } else { (p as usize, new_size) };
         if now_addr != addr {
